@@ -1,0 +1,43 @@
+//! Verification hook, compiled only with the cargo feature `verif` (off by
+//! default): alternative, smaller values for the size constants of the layers,
+//! so that every boundary alignment can be enumerated by external checkers.
+//!
+//! Each value is taken at compile time from an environment variable
+//! (`MLA_VERIF_*`), and falls back to the production value when it is unset.
+
+const fn parse(value: Option<&str>, default: u64) -> u64 {
+    match value {
+        None => default,
+        Some(s) => {
+            let bytes = s.as_bytes();
+            assert!(!bytes.is_empty(), "empty MLA_VERIF_* value");
+            let mut i = 0;
+            let mut acc: u64 = 0;
+            while i < bytes.len() {
+                let c = bytes[i];
+                assert!(c >= b'0' && c <= b'9', "MLA_VERIF_* values must be decimal");
+                acc = acc * 10 + (c - b'0') as u64;
+                i += 1;
+            }
+            acc
+        }
+    }
+}
+
+/// Size of the temporary buffer used by the encryption layer on write
+pub const CIPHER_BUF_SIZE: u64 = parse(option_env!("MLA_VERIF_CIPHER_BUF_SIZE"), 4096);
+/// Size of an encryption chunk (without its tag)
+pub const CHUNK_SIZE: u64 = parse(option_env!("MLA_VERIF_CHUNK_SIZE"), 128 * 1024);
+/// Uncompressed size of a compression block
+#[allow(clippy::cast_possible_truncation)]
+pub const UNCOMPRESSED_DATA_SIZE: u32 = parse(
+    option_env!("MLA_VERIF_UNCOMPRESSED_DATA_SIZE"),
+    4 * 1024 * 1024,
+) as u32;
+/// Size of the input cache of the fail-safe decompression reader
+#[allow(clippy::cast_possible_truncation)]
+pub const FAIL_SAFE_BUFFER_SIZE: usize =
+    parse(option_env!("MLA_VERIF_FAIL_SAFE_BUFFER_SIZE"), 4096) as usize;
+/// Size of the aggregation buffer used while repairing
+#[allow(clippy::cast_possible_truncation)]
+pub const CACHE_SIZE: usize = parse(option_env!("MLA_VERIF_CACHE_SIZE"), 8 * 1024 * 1024) as usize;
